@@ -38,8 +38,11 @@ from .values import (
     join_val,
     mk_sym,
     short,
+    subst_sym,
     subst_val,
     sym_const,
+    sym_has_star,
+    sym_index_vars,
 )
 
 F0 = Fraction(0)
@@ -125,7 +128,7 @@ class Builtins(BuiltinCalls, ContainerCalls):
         return ExtV(qual="builtin." + name)
 
     def external_value(self, qual: str) -> Val:
-        if qual in ("statistics.NormalDist", "uuid.UUID", "collections.OrderedDict", "collections.defaultdict", "decimal.Decimal", "fractions.Fraction"):
+        if qual in ("statistics.NormalDist", "uuid.UUID", "collections.OrderedDict", "collections.defaultdict", "collections.Counter", "decimal.Decimal", "fractions.Fraction"):
             return ClassV(ext=qual)
         if qual == "sys.float_info.epsilon":
             self.I.axiom("sys.float_info.epsilon = 2.220446049250313e-16")
@@ -234,6 +237,10 @@ class Builtins(BuiltinCalls, ContainerCalls):
         full = lo_c in (None, 0) and hi_c is None and st_c in (None, 1)
         if full:
             return replace(s, fixed=s.fixed)
+        if st_c in (None, 1):
+            ch = self._stride_chunk(s, lo, hi, node)
+            if ch is not None:
+                return ch
         flags = set(s.flags) | {"partial"}
         length = Length(None, 0, s.length.hi)
         elem = subst_val(s.elem, {s.kvar: STAR})
@@ -251,6 +258,10 @@ class Builtins(BuiltinCalls, ContainerCalls):
                 if lo_c in (None, 0):
                     elem = s.elem  # a prefix keeps positions
                     flags.add("prefix")
+                elif lo_c == 1 and hi_c is None and not (s.flags & {"reordered", "building", "weak-append", "unmodelled", "dict-order", "partial"}):
+                    # xs[1:]: element k of the tail is element k + 1 of xs (the position is named by that integer term)
+                    elem = subst_val(s.elem, {s.kvar: ("k", ("add", ("idx", ivar(kv)), ("const", 1)))})
+                    flags.add("tail1")
             elif hi_c is not None and hi_c >= 0:
                 n = max(hi_c - (lo_c or 0), 0)
                 length = Length(None, min(n, max(s.length.lo - (lo_c or 0), 0)), min(n, s.length.hi))
@@ -260,6 +271,40 @@ class Builtins(BuiltinCalls, ContainerCalls):
         if st_c not in (None, 1):
             flags.add("reordered")
         return Seq(length, elem, kv, None, None, frozenset(flags), s.kind)
+
+    def _stride_chunk(self, s: Seq, lo, hi, node):
+        """L[j*k : j*k + k]: the j-th consecutive k-chunk of L (the slice form of the zip(*[iter(L)] * k) idiom)."""
+        from ..poly import p_add, to_poly
+
+        if (isinstance(lo, Num) and isinstance(hi, Num) and isinstance(lo.const, int) and isinstance(hi.const, int) and not isinstance(lo.const, bool)
+                and hi.const > lo.const >= 0 and lo.const % (hi.const - lo.const) == 0 and s.fixed is None):
+            # constant bounds (an exact number of teams written out): chunk number lo / k
+            kc = hi.const - lo.const
+            r = self.chunk_pairs(s, Length.const(kc), node, None, False)
+            return None if r is None else subst_val(r.elem, {r.kvar: ("c", lo.const // kc)})
+        if not (isinstance(lo, Num) and isinstance(hi, Num)) or lo.sym is None or hi.sym is None or lo.sym[0] not in ("mul", "idx"):
+            return None
+        if lo.sym[0] == "idx":
+            pos, ks = lo.sym, ("const", 1)
+        else:
+            a, b = lo.sym[1], lo.sym[2]
+            if a[0] == "idx":
+                pos, ks = a, b
+            elif b[0] == "idx":
+                pos, ks = b, a
+            else:
+                return None
+        if not (isinstance(pos[1], tuple) and pos[1] and pos[1][0] == "v"):
+            return None
+        pl, pk, ph = to_poly(lo.sym), to_poly(ks), to_poly(hi.sym)
+        if pl is None or pk is None or ph is None or ph != p_add(pl, pk):
+            return None
+        k = Length.const(ks[1]) if ks[0] == "const" else Length(("num", ks), 0, INF)
+        self.I.axiom("L[j*k : j*k + k] for j = 0, 1, ... are the consecutive k-chunks of L")
+        r = self.chunk_pairs(s, k, node, None, False)
+        if r is not None:
+            return subst_val(r.elem, {r.kvar: pos[1]})
+        return Seq(k, subst_val(s.elem, {s.kvar: STAR}), "c", None, None, frozenset({"chunk", "partial"}), s.kind)
 
     def contains(self, state: State, item: Val, container: Val, negate: bool, node) -> Val:
         tv = None
@@ -339,6 +384,8 @@ class Builtins(BuiltinCalls, ContainerCalls):
         # weak update of the summary element (position-insensitive from now on)
         vs = subst_val(v, {t: STAR for t in self.I.token_loop})
         elem = join_val(subst_val(s.elem, {s.kvar: STAR}), vs)
+        if isinstance(elem, Num):
+            elem = replace(elem, prov=elem.prov | {"WEAK"})  # old and new elements joined: which one a later read sees is not tracked
         state.heap[p.loc] = replace(c, obj=ListObj(Seq(s.length, elem, s.kvar, None, None, s.flags | {"index-assigned"}), o.build))
 
     # ==================================================================================
@@ -347,6 +394,10 @@ class Builtins(BuiltinCalls, ContainerCalls):
     def dict_get(self, state: State, p: Ptr, key, node, strict: bool, default: Optional[Val] = None) -> Val:
         d = self.I.deref(state, p)
         o, env = d
+        if "counter" in o.flags:
+            r = self._counter_get(state, p, o, env, key, node)
+            if r is not None:
+                return r
         if strict and "defaultdict" in o.flags:
             # collections.defaultdict: a missing key yields factory() (and stores it; the store is subsumed by the summary)
             fac = self.I.default_factories.get(p.loc)
@@ -391,6 +442,84 @@ class Builtins(BuiltinCalls, ContainerCalls):
         if not strict:
             v = join_val(v, default if default is not None else NoneV())
         return v
+
+    # ---- collections.Counter(iterable): how often each value occurs; a missing key counts 0
+    def counter_new(self, state: State, args, node) -> Val:
+        I = self.I
+        if not args:
+            return I.alloc(state, DictObj(flags=frozenset({"counter"})), node, "Counter")
+        s = I.to_seq(args[0], state, node)
+        if s is None or state.bottom:
+            return Bottom()
+        if s.length.hi == 0:
+            return I.alloc(state, DictObj(flags=frozenset({"counter"})), node, "Counter")
+        elem = subst_val(s.elem, {s.kvar: STAR})
+        groups = None
+        if s.fixed is not None and len(s.fixed) <= 6 and all(isinstance(x, (Num, Bool, Str)) for x in s.fixed):
+            # an explicit short list: group the elements by ==, exactly, when every comparison is decided
+            groups = []
+            for x in s.fixed:
+                hit = None
+                for g in groups:
+                    t = I.compare(ast.Eq(), x, g[0], node, state)
+                    tv = t.tv if isinstance(t, Bool) else None
+                    if tv is None:
+                        groups = None
+                        break
+                    if tv:
+                        hit = g
+                        break
+                if groups is None:
+                    break
+                if hit is not None:
+                    hit[1] += 1
+                else:
+                    groups.append([x, 1])
+        n_lo = 1 if s.length.lo >= 1 else 0
+        cnt = Num(kinds=INT, rng=Interval(1.0, max(float(s.length.hi), 1.0), False, s.length.hi == INF), deg=F0, prov=_deep_prov(elem))
+        length = Length.const(len(groups)) if groups is not None else Length(None, n_lo, s.length.hi)
+        p = I.alloc(state, DictObj(elem, cnt, length, None, None, frozenset({"counter", "summary"})), node, "Counter")
+        I.counter_info[p.loc] = (s, groups)
+        return p
+
+    def _counter_get(self, state: State, p: Ptr, o, env, key, node) -> Optional[Val]:
+        I = self.I
+        info = I.counter_info.get(p.loc)
+        zero = replace(lift_const(0), deg=F0)
+        if o.length.hi == 0:
+            return zero
+        if info is None or env:
+            return None
+        s, groups = info
+        kp = _deep_prov(key)
+        if groups is not None and isinstance(key, (Num, Bool, Str)):
+            res = None
+            for rep, n in groups:
+                t = I.compare(ast.Eq(), key, rep, node, state)
+                tv = t.tv if isinstance(t, Bool) else None
+                if tv is None:
+                    res = None
+                    break
+                if tv:
+                    res = n
+                    break
+            else:
+                res = 0
+            if res is not None:
+                return replace(lift_const(res), deg=F0, prov=kp | _deep_prov(o.key))
+        v = o.val
+        if isinstance(v, Num):
+            v = replace(v, prov=v.prov | kp)
+        # lemma L-A (reflexive count): the key is the counted expression at some position of the counted sequence itself
+        if (isinstance(key, Num) and key.sym is not None and isinstance(s.elem, Num) and s.elem.sym is not None and not sym_has_star(key.sym)
+                and not (s.flags & {"partial", "cond-append", "building", "weak-append", "unmodelled"})):
+            toks: set = set()
+            sym_index_vars(key.sym, toks)
+            for t in sorted(toks):
+                if subst_sym(s.elem.sym, {s.kvar: ivar(t)}) == key.sym:
+                    I.event("lemma", node, name="L-A", why="the looked-up key is the counted expression at a position of the counted sequence itself: its count includes that element")
+                    return v
+        return join_val(v, zero)
 
     def dict_get_plain(self, state: State, p: Ptr, key, node) -> Optional[Val]:
         """Value stored under key if any may exist (None when the dict is certainly empty)."""
